@@ -43,6 +43,7 @@ def build(spec):
       persistence   x        a SimplePersistence object with trapped charge x in every pixel
       pre_exposure  n        the caller has already used these very objects for n plain exposures (which work in
                              place): buckets hold arrays, memory / trapped charge / list arguments have moved on
+      pre_seed      k        those earlier exposures were run with pipeline_seed k, k+1, .. (stochastic pipelines)
     """
     from harness import pyx
 
@@ -71,8 +72,11 @@ def build(spec):
         pers = SimplePersistence(trap_time_constants=[1.0], trap_densities=[0.5], geometry=(geo.row, geo.col))
         pers.trapped_charge_array = np.full((1, geo.row, geo.col), float(spec["persistence"]), dtype=float)
         det.persistence = pers
-    for _ in range(int(spec.get("pre_exposure") or 0)):
-        pyx.run_exposure(det, pipe, readout)
+    for i in range(int(spec.get("pre_exposure") or 0)):
+        # a stochastic pipeline: the caller's earlier exposures are made reproducible (pre_seed), so that two builds of
+        # the same spec are equal in value
+        pre_seed = spec.get("pre_seed")
+        pyx.run_exposure(det, pipe, readout, pipeline_seed=None if pre_seed is None else int(pre_seed) + i)
     return det, pipe, readout
 
 
@@ -516,7 +520,7 @@ def _exc(ex) -> str:
     return type(ex).__name__
 
 
-def _make_fitting(proc, variables, readout, rows, cols, target, input_arguments=None):
+def _make_fitting(proc, variables, readout, rows, cols, target, input_arguments=None, pipeline_seed=None):
     """variables: [(key, lo, hi)] scalar ones or [(key, lo, hi, n)] list-valued ones (n >= 1 entries of the decision
     vector); input_arguments: [(key, [v_0, .., v_{m-1}])] -> m processors (build_processors), one target file each."""
     from pyxel.calibration.fitness import sum_of_abs_residuals
@@ -545,6 +549,8 @@ def _make_fitting(proc, variables, readout, rows, cols, target, input_arguments=
     kw = {}
     if input_arguments:
         kw["input_arguments"] = [ParameterValues(key=k, values=list(vals)) for k, vals in input_arguments]
+    if pipeline_seed is not None:
+        kw["pipeline_seed"] = int(pipeline_seed)
     return ModelFittingDataTree(
         processor=proc, variables=pvs, readout=readout, simulation_output="pixel", generations=1,
         population_size=1, fitness_func=sum_of_abs_residuals, file_path=None,
@@ -598,6 +604,11 @@ def do_graph(p, keep):
     try:
         if site == "deepcopy":
             new = copy.deepcopy(proc)
+        elif site == "pickle":
+            import pickle
+
+            # the route by which a processor reaches a run under a multi-process / distributed scheduler
+            new = pickle.loads(pickle.dumps(proc))
         elif site == "replace":
             new = proc.replace(params)
         elif site == "create_new_processor":
@@ -783,10 +794,10 @@ def _extract_run(da, mode, plist, run):
     """plist: [(key, values)], run: {"index": n, "pos": {key: position}, "params": {key: value}}."""
     extra = [d for d in da.dims if d not in CORE_DIMS]
     how = []
-    if mode == "sequential":
+    if mode in ("sequential", "custom"):
         if "id" not in extra:
             raise ValueError("no 'id' dim in %r" % (list(da.dims),))
-        total = sum(len(v) for _, v in plist)
+        total = sum(len(v) for _, v in plist) if mode == "sequential" else len(plist[0][1])
         da, h = _select_dim(da, "id", run["index"], run["index"], total)
         how.append(h)
     else:
@@ -812,13 +823,18 @@ def _extract_run(da, mode, plist, run):
     return _flatten_core(da), how
 
 
-def _standalone(spec, params):
-    """-> (ints | None, inexact, raised | None, floats | None)"""
+def _standalone(spec, params, seed=None, ambient=None):
+    """-> (ints | None, inexact, raised | None, floats | None)
+
+    seed: the pipeline_seed of the standalone Exposure; ambient: numpy's global generator is put into this state before
+    the exposure (a seeded exposure must not depend on it)."""
     from harness import pyx
 
     try:
         det, pipe, readout = build_with_params(spec, params)
-        dt = pyx.run_exposure(det, pipe, readout)
+        if ambient is not None:
+            np.random.seed(int(ambient))
+        dt = pyx.run_exposure(det, pipe, readout, pipeline_seed=seed)
         vals = _flatten_core(_pixel_da(dt))
         ints, inexact = _to_ints(vals)
         return ints, inexact, None, vals
@@ -828,7 +844,11 @@ def _standalone(spec, params):
 
 def _enumerate_runs(mode, plist):
     runs = []
-    if mode == "sequential":
+    if mode == "custom":
+        keys = [k for k, _ in plist]
+        for n, row in enumerate(zip(*[v for _, v in plist])):
+            runs.append({"index": n, "pos": {k: n for k in keys}, "params": dict(zip(keys, row))})
+    elif mode == "sequential":
         n = 0
         for key, values in plist:
             for i, v in enumerate(values):
@@ -854,19 +874,38 @@ def do_observe(p, keep):
     keep.append((det, pipe, readout))
     before = _snap_many(detector=det, pipeline=pipe, readout=readout)
     out = {"before": snap_list(before), "calls": []}
+    prev_obs = None
     for call in p.get("calls") or []:
         mode = call.get("mode", "product")
         plist = [(q["key"], list(q["values"])) for q in call.get("parameters") or []]
         rec = {"raised": None, "runs": []}
         da = None
+        seed = call.get("pipeline_seed")
         try:
-            obs = Observation(
-                parameters=[ParameterValues(key=k, values=copy.deepcopy(v)) for k, v in plist],
-                readout=readout, mode=mode, with_dask=bool(call.get("with_dask")), outputs=None)
+            kw = {}
+            if mode == "custom":
+                # the rows of the file are the runs; every parameter is declared with the placeholder "_"
+                np.savetxt("custom_params.txt", np.array([list(row) for row in zip(*[v for _, v in plist])], dtype=float))
+                kw = dict(from_file="custom_params.txt", column_range=(0, len(plist)))
+                pvs = [ParameterValues(key=k, values="_") for k, _ in plist]
+            else:
+                pvs = [ParameterValues(key=k, values=copy.deepcopy(v)) for k, v in plist]
+            if seed is not None:
+                kw["pipeline_seed"] = int(seed)
+            if call.get("same_mode_object") and prev_obs is not None:
+                obs = prev_obs           # the user runs the very same Observation object once more
+            else:
+                obs = Observation(
+                    parameters=pvs,
+                    readout=readout, mode=mode, with_dask=bool(call.get("with_dask")), outputs=None, **kw)
+            prev_obs = obs
+            if call.get("ambient") is not None:
+                np.random.seed(int(call["ambient"]))      # the state of the global generator when the user calls
             sched = call.get("scheduler") or "synchronous"
             import dask
 
-            with dask.config.set(scheduler=sched, **({"num_workers": 3} if sched == "threads" else {})):
+            with dask.config.set(scheduler=sched, **({"num_workers": 3} if sched == "threads" else
+                                                     {"num_workers": 2} if sched == "processes" else {})):
                 dt = pyxel.run_mode(mode=obs, detector=det, pipeline=pipe, with_inherited_coords=True)
                 da = _pixel_da(dt).compute()
             rec["dims"] = [str(d) for d in da.dims]
@@ -879,7 +918,10 @@ def do_observe(p, keep):
         rec["changed"] = snap_diff(before, after)[:10]
         for run in _enumerate_runs(mode, plist):
             r = {"params": run["params"], "obs": None, "std": None, "std_raised": None, "inexact": False}
-            std, inexact, raised, _ = _standalone(spec, run["params"])
+            # the standalone exposure runs under the same pipeline_seed, and under a DIFFERENT state of the global
+            # generator (a seeded exposure does not depend on it)
+            amb = None if seed is None else (int(call.get("ambient") or 0) * 31 + 17 * run["index"] + 5) % 100003
+            std, inexact, raised, _ = _standalone(spec, run["params"], seed=seed, ambient=amb)
             r["std"], r["std_raised"] = std, raised
             r["inexact"] = bool(inexact)
             if da is not None:
@@ -913,19 +955,23 @@ def do_fitness(p, keep):
     keep.append(proc)
     rows, cols = det.geometry.row, det.geometry.col
     try:
-        mf = _make_fitting(proc, variables, readout, rows, cols, target, input_arguments=inputs or None)
+        mf = _make_fitting(proc, variables, readout, rows, cols, target, input_arguments=inputs or None,
+                           pipeline_seed=p.get("pipeline_seed"))
     except Exception as ex:  # noqa: BLE001
         return {"init_raised": _exc(ex), "init_msg": str(ex)[:300], "evals": []}
+    seed = p.get("pipeline_seed")
     keep.append(mf)
     templates = list(mf.param_processor_list)
     b_caller = snapshot(proc)
     b_templ = _snap_many(**{"t%d" % i: t for i, t in enumerate(templates)})
     out = {"before_caller": snap_list(b_caller), "before_template": snap_list(b_templ), "evals": [],
            "template_is_caller": any(t is proc for t in templates), "processors": len(templates)}
-    for vec in p.get("vectors") or []:
+    for nvec, vec in enumerate(p.get("vectors") or []):
         rec = {"vec": list(vec), "obs": None, "raised": None, "std": None, "std_raised": None}
         prev_disabled = logging.root.manager.disable
         arg = np.array(vec, dtype=float)
+        if seed is not None:
+            np.random.seed(1000 + 7 * nvec)               # the global generator's state differs from call to call
         try:
             logging.disable(logging.CRITICAL)      # fitness() logs the traceback with logging.exception
             f = mf.fitness(arg)[0]
@@ -960,7 +1006,7 @@ def do_fitness(p, keep):
             pi = dict(params)
             for k, vals in inputs:
                 pi[k] = vals[i]
-            _, _, raised, vals_i = _standalone(spec, pi)
+            _, _, raised, vals_i = _standalone(spec, pi, seed=seed, ambient=None if seed is None else 77 + i)
             if raised is not None:
                 rec["std_raised"] = raised
                 break
@@ -1030,7 +1076,9 @@ def do_calibration(p, keep):
         readout=readout, result_type="pixel", result_fit_range=(0, rows, 0, cols), target_fit_range=(0, rows, 0, cols),
         pygmo_seed=int(p.get("pygmo_seed", 1)), num_islands=int(p.get("islands", 2)),
         num_evolutions=int(p.get("evolutions", 1)), num_best_decisions=int(p.get("num_best", 0)),
-        topology="ring" if int(p.get("islands", 2)) > 1 else "unconnected")
+        topology="ring" if int(p.get("islands", 2)) > 1 else "unconnected",
+        **({} if p.get("pipeline_seed") is None else {"pipeline_seed": int(p["pipeline_seed"])}))
+    seed = p.get("pipeline_seed")
     log, lock = [], threading.Lock()
     orig_fit = ModelFittingDataTree.fitness
 
@@ -1077,7 +1125,7 @@ def do_calibration(p, keep):
             pi = dict(params)
             for k, vals in inputs:
                 pi[k] = vals[i]
-            _, _, raised, vals_i = _standalone(spec, pi)
+            _, _, raised, vals_i = _standalone(spec, pi, seed=seed, ambient=None if seed is None else 91 + i)
             if raised is not None:
                 return None, None, raised
             a = np.array(vals_i, dtype=float).reshape((-1, rows, cols))
